@@ -31,6 +31,9 @@ RULE = (
     "notInTimeWindow verdicts never exceed the number of reboots (0 without reboots). "
     "Discovery-reply class: wrong message id / no bindings / empty first binding => refused "
     "and no request follows. Distinct by (level, history shape)."
+    " Wrong message ids also relative to the probe (+-2^32, +2^33, +-2^31, +2^16, +2^8, +2^64"
+    ", negated, sign bit flipped); one history in five has reports whose scoped PDU names no "
+    "or another context engine."
 )
 ASSUMPTIONS = [
     "the unbounded 'succeeds any time later' is restated as bounded progress: every operation of every generated history",
